@@ -376,6 +376,8 @@ fn history_inputs(t: &mut Tape, cfg: &crate::cfggen::CfgInfo) -> Vec<(String, St
         pool.push((format!("function f(a, b) {{ return __datadog_{prefix}_7 + a() + b() + a.trim(b(), a()); }}\n"), format!("/app/src/clashref_{}.js", prefix.len())));
         pool.push((format!("function f(a, b) {{ const k = a() + b() + `${{a()}}${{b()}}`; {{ label: {{ k.trim(__datadog_{prefix}_1); }} }} return k; }}\n"), format!("/app/src/clashnested_{}.js", prefix.len())));
     }
+    // one literal value at a dozen places (the literals report is a set: nothing about it may depend on the call)
+    pool.push((format!("function f(a) {{ return [{}].concat(a + a); }}\n", vec!["'content-type-header'"; 12].join(", ")), "/app/src/dozen.js".to_string()));
     // needs no temporary at all / exactly one: anything left over from an earlier call shows
     pool.push(("function f(a, b) { return a + b; }\n".to_string(), "/app/src/notemps.js".to_string()));
     pool.push(("function f(a, b) { { return a() + b; } }\n".to_string(), "/app/src/onetemp.js".to_string()));
